@@ -33,6 +33,7 @@ type Config struct {
 	// of MsgSend / MsgRecv. Only for worlds with at most one receiver per side and stream (the order of delivery is
 	// then noted after RawRecv returned).
 	RawAPI     bool
+	Stats      bool     // both ends collect per-rpc statistics (CollectStats)
 	Points     []string // enabled scheduling points ("*" = all)
 	PointLimit int
 	NoServer   bool // the B end is left to the test (wire-level peer)
@@ -292,11 +293,11 @@ func NewWorld(cfg Config, rpcs []RPC) *World {
 		if cfg.Handler != nil {
 			h = cfg.Handler
 		}
-		srv := drpcserver.NewWithOptions(h, drpcserver.Options{Manager: mopts})
+		srv := drpcserver.NewWithOptions(h, drpcserver.Options{Manager: mopts, CollectStats: cfg.Stats})
 		go func() { defer close(w.srvDone); w.srvErr = srv.ServeOne(ctx, w.B) }()
 	}
 	if !cfg.NoClient {
-		w.Conn = drpcconn.NewWithOptions(w.A, drpcconn.Options{Manager: mopts})
+		w.Conn = drpcconn.NewWithOptions(w.A, drpcconn.Options{Manager: mopts, CollectStats: cfg.Stats})
 	}
 	return w
 }
